@@ -6,6 +6,7 @@ import (
 	"os"
 	"os/exec"
 	"path/filepath"
+	"regexp"
 	"strings"
 	"testing"
 	"time"
@@ -53,6 +54,26 @@ func withVariant(sc *Scenario, v variant) *Scenario {
 	n.Procs[0].CPU = v.CPU
 	n.Sched = v.Sched
 	return &n
+}
+
+var reErrPos = regexp.MustCompile(`^(exit=\d+ err=)(\[L:\d+ C:\d+\])?.*?( panic=.*)?$`)
+
+// c12Norm reduces the error of a failed program to the position of the failing
+// statement: when several rows of a statement fail, the row whose error is
+// reported is the one whose worker fails first, and rows can fail with
+// different texts (the offending token, "line 1, column 1" or only "column 1").
+// That choice is not part of C12; that the program fails, with which exit
+// code and at which statement, is.
+func c12Norm(s string) string {
+	i := strings.Index(s, "\n")
+	if i < 0 {
+		return s
+	}
+	first := s[:i]
+	if m := reErrPos.FindStringSubmatch(first); m != nil && !strings.HasPrefix(first, "exit=0 ") {
+		first = m[1] + m[2] + " (some row failed)" + m[3]
+	}
+	return first + s[i:]
 }
 
 func resultOf(res *RunResult) string {
@@ -125,7 +146,7 @@ func (c12) Eval(t *testing.T, c *Case, dec func(int) *Decider) *Outcome {
 		o.viol(prop, "termination", "hang", "reference run (--cpu 1) did not terminate: "+resRef.Hang+resRef.BubbleErr)
 		return o
 	}
-	want := resultOf(resRef)
+	want := c12Norm(resultOf(resRef))
 	if resRef.Procs[0].ExitCode != 0 {
 		o.Stats.probe("reference-run-ended-with-error")
 	} else {
@@ -155,7 +176,7 @@ func (c12) Eval(t *testing.T, c *Case, dec func(int) *Decider) *Outcome {
 			o.viol(prop, "termination", "hang", fmt.Sprintf("run with --cpu %d did not terminate: hang=%q limit=%v bubble=%q", v.CPU, res.Hang, res.LimitHit, res.BubbleErr))
 			continue
 		}
-		got := resultOf(res)
+		got := c12Norm(resultOf(res))
 		if got != want {
 			o.viol(prop, "cpu-and-schedule-independence", "differs-from-cpu1:"+diffSig(sc, want, got),
 				fmt.Sprintf("--cpu %d (%s schedule) gives a different result than --cpu 1: %s", v.CPU, v.Sched.Strategy, firstDiff(want, got)))
@@ -167,7 +188,7 @@ func (c12) Eval(t *testing.T, c *Case, dec func(int) *Decider) *Outcome {
 		res, _ := Execute(t, lastSc, NewReplayer(append([]int{}, lastDec.Vec...)))
 		o.Runs++
 		if res.TraceHash == lastRes.TraceHash {
-			if a, b := resultOf(lastRes), resultOf(res); a != b {
+			if a, b := c12Norm(resultOf(lastRes)), c12Norm(resultOf(res)); a != b {
 				o.viol(prop, "run-independence", "differs-between-runs:"+diffSig(sc, a, b),
 					fmt.Sprintf("two runs with the same --cpu and the same schedule give different results: %s", firstDiff(a, b)))
 			} else {
@@ -244,7 +265,7 @@ func realQueryRun(bin string, sc *Scenario, cpu int) (string, error) {
 		for _, n := range st.Names() {
 			fmt.Fprintf(&b, "%s:\n%s\n", n, st[n].Data)
 		}
-		return b.String(), nil
+		return c12Norm(b.String()), nil
 	case <-time.After(120 * time.Second):
 		_ = cmd.Process.Kill()
 		return "", fmt.Errorf("the real binary did not finish within 120 s with --cpu %d", cpu)
